@@ -176,6 +176,16 @@ class RaiseOracle:
         if not isinstance(x, ast.Name):
             return False
         b = self.model.resolve_name(self.fn, x.id)
+        if b.kind in ("param", "freevar"):
+            # own attributes of the receiver (self / cls) of the enclosing method: assumed
+            # present (trusted base: instances and annotation classes carry the attributes
+            # their constructors give them)
+            s = self.fn
+            while s is not None and getattr(s, "cls", None) is None and hasattr(s, "parent"):
+                s = s.parent
+            if s is not None and getattr(s, "cls", None) is not None and getattr(s, "params", None):
+                return x.id == s.params[0]
+            return False
         return b.kind in ("ext", "module", "modvar", "class", "func", "builtin")
 
     def expr(self, e) -> bool:
